@@ -29,18 +29,30 @@ type spec struct {
 	visible map[uint64]bool
 	pending map[uint64]bool // issued, not yet followed by a flush / close
 	deleted map[uint64]bool
+	// made visible by a periodic (non-final) flush whose cache-generation bump is still owed: the
+	// select path may answer from a stale tag-filter cache entry and miss them
+	unsettled map[uint64]bool
+	owed      bool // the flush callback of the table is owed (the harness took it over from the ticker)
 }
 
 func newSpec(h *history) *spec {
-	return &spec{h: h, live: map[int]uint64{}, owner: map[uint64]int{}, visible: map[uint64]bool{}, pending: map[uint64]bool{}, deleted: map[uint64]bool{}}
+	return &spec{h: h, live: map[int]uint64{}, owner: map[uint64]int{}, visible: map[uint64]bool{}, pending: map[uint64]bool{}, deleted: map[uint64]bool{}, unsettled: map[uint64]bool{}}
 }
 
+// flush: a final flush (DebugFlush, ClearCache, Close): what was pending becomes visible and, if
+// there was anything, the tag-filter cache generation is bumped at once.
 func (sp *spec) flush() {
+	if len(sp.pending) > 0 {
+		sp.unsettled = map[uint64]bool{}
+	}
 	for id := range sp.pending {
 		sp.visible[id] = true
 	}
 	sp.pending = map[uint64]bool{}
 }
+
+// settled: the tag-filter cache was dropped or its generation bumped
+func (sp *spec) settled() { sp.unsettled = map[uint64]bool{} }
 
 func sat(s *seriesT, p *pnode) bool {
 	if p == nil {
@@ -236,6 +248,7 @@ type runner struct {
 	prev  []savedPred
 	marsh map[string]string // marshalled bytes -> value (injectivity of marshalTagValue over the run)
 	tfseen map[string]bool // tfinit ops already emitted in this history
+	taint  map[int]bool    // series whose cache entry was evicted while they were not flushed yet
 	journal  *os.File // crash replay mode: every op is written (and synced) before and after it runs
 	progress string   // worker mode: file that names the history being run
 	c    *hx.Ctx
@@ -323,7 +336,11 @@ func (rn *runner) opInsert(si int) {
 	if want, ok := sp.live[si]; ok {
 		rn.c.Count("ins:existing")
 		if id != want {
-			rn.c.Violation(line, "", fmt.Sprintf("series %q had id %d and was assigned a second id %d", seriesText(rn.h, s), want, id))
+			class := ""
+			if rn.taint[si] {
+				class = "series_cache_evicted_before_flush"
+			}
+			rn.c.Violation(line, class, fmt.Sprintf("series %q had id %d and was assigned a second id %d", seriesText(rn.h, s), want, id))
 		}
 	} else {
 		rn.c.Count("ins:new")
@@ -496,6 +513,25 @@ func (rn *runner) searchWith(kind string, mi int, p *pnode, res []*reAtom) {
 		return
 	}
 	lower, upper := rn.sp.expected(mi, p)
+	if kind == "sel" {
+		stale := false
+		have := map[uint64]bool{}
+		for _, id := range ids {
+			have[id] = true
+		}
+		for id := range rn.sp.unsettled {
+			if lower[id] && !have[id] {
+				stale = true
+			}
+			delete(lower, id)
+		}
+		if len(rn.sp.unsettled) > 0 {
+			rn.c.Count("sel:in-staleness-window")
+		}
+		if stale {
+			rn.c.Count("sel:stale-answer-observed")
+		}
+	}
 	var line int
 	bad := ""
 	if kind == "keys" {
@@ -825,6 +861,7 @@ func (rn *runner) deleteWith(mi int, p *pnode, res []*reAtom) {
 			delete(rn.sp.live, si)
 		}
 	}
+	rn.sp.settled() // WriteDeleteTsids bumps the tag-filter cache generation
 }
 
 // withEnv opens a fresh index for rn.h, runs body and removes everything again.
@@ -835,6 +872,7 @@ func (rn *runner) withEnv(tag string, body func()) {
 	rn.prev = nil
 	rn.ksig = map[string]string{}
 	rn.tfseen = map[string]bool{}
+	rn.taint = map[int]bool{}
 	if rn.marsh == nil {
 		rn.marsh = map[string]string{}
 	}
@@ -887,8 +925,18 @@ func (rn *runner) runOps(nOps int, big bool) {
 	}
 	rn.byteBlock(4 + r.Intn(6))
 	for k := 0; k < nOps && !rn.dead; k++ {
-		x := r.Intn(108)
+		x := r.Intn(122)
 		switch {
+		case x >= 120:
+			rn.windowProbe()
+		case x >= 118:
+			rn.opEvictFilters()
+		case x >= 114:
+			rn.opEvict()
+		case x >= 111:
+			rn.opBump()
+		case x >= 108:
+			rn.opPFlush()
 		case x >= 100:
 			rn.opScan()
 		case x < 22:
@@ -898,12 +946,12 @@ func (rn *runner) runOps(nOps int, big bool) {
 		case x < 39:
 			rn.simple("flush", func() error { rn.e.main.idx.DebugFlush(); return nil }, rn.sp.flush)
 		case x < 43:
-			rn.simple("clear", func() error { return rn.e.main.idx.ClearCache() }, rn.sp.flush) // ClearCache flushes first (fix d720cb5)
+			rn.simple("clear", func() error { return rn.e.main.idx.ClearCache() }, func() { rn.sp.flush(); rn.sp.settled() }) // ClearCache flushes first (fix d720cb5)
 		case x < 46:
-			rn.simple("reopen", rn.e.reopen, func() { rn.sp.flush(); rn.reop = true })
+			rn.simple("reopen", rn.e.reopen, func() { rn.sp.flush(); rn.sp.settled(); rn.sp.owed = false; rn.reop = true })
 		case x < 49:
 			dt := []uint64{0, 1, 2, 5, 100}[r.Intn(5)]
-			rn.simple(fmt.Sprintf("restart %d", dt), func() error { return rn.e.restart(dt) }, func() { rn.sp.flush(); rn.reop = true })
+			rn.simple(fmt.Sprintf("restart %d", dt), func() error { return rn.e.restart(dt) }, func() { rn.sp.flush(); rn.sp.settled(); rn.sp.owed = false; rn.reop = true })
 		case x < 52:
 			rn.opDelete()
 		case x < 54:
